@@ -54,7 +54,7 @@ func init() {
 	def("C09", "exploration", "family 'maintenance': enter/leave full and light maintenance through the real CLI with restarts, ZK outages, operator SQL, racing requests."+nt, familyPlan{"maintenance", 200, 3000, false})
 	def("C10", "exploration", "family 'repair': one-deviation grid and sampled products of initial per-node states + unregistered decoy servers; safety monitors + bounded convergence."+nt, familyPlan{"repair", 160, 3000, false})
 	def("C11", "exploration", "family 'recovery': switch away from a master in each GTID relation, recovery checker interleaved with manager iterations, resetup."+nt, familyPlan{"recovery", 140, 2500, false})
-	def("C15", "exploration", "engine B family 'dataplane': generated sequences of DCS data operations by 1-3 real zkDCS clients against a reference tree (sequential refinement when fault-free, per-operation admissibility under faults) + ephemeral lifetime."+nt, familyPlan{"dataplane", 160, 3000, false})
+	def("C15", "exploration", "engine B family 'dataplane': generated sequences of DCS data operations by 1-3 real zkDCS clients against a reference tree (sequential refinement when fault-free, per-operation admissibility under faults) + ephemeral lifetime; family 'lock' for the lock as an ephemeral key (reported held only while a live session of the caller owns it)."+nt, familyPlan{"dataplane", 160, 3000, false}, familyPlan{"lock", 90, 1500, false})
 	def("C16", "exploration", "family 'cascade': stream_from maps incl. chains/cycles/self/unregistered, ancestor health over time; monitors on CHANGE SOURCE at cascade servers."+nt, familyPlan{"cascade", 330, 6600, false})
 	def("C17", "exploration", "family 'offline': zone layouts, caps, lag scripts around both thresholds, broken replication, resetup status; per-pass policy constraints."+nt, familyPlan{"offline", 300, 6000, false})
 	def("C18", "exploration", "family 'disk': usage scripts for master and semi-sync replicas through the three zones; hysteresis table vs read_only statements."+nt, familyPlan{"disk", 300, 6000, false})
